@@ -140,6 +140,48 @@ def _reg(name):
     return None
 
 
+def _table(x):
+    t = getattr(x, 'header_table', None)
+    if t is None:
+        return None
+    return [(bytes(n), bytes(v)) for n, v in t.dynamic_entries], t.maxsize
+
+
+def hpack_pre(ctx):
+    """pre_hook: the encoder's dynamic table before the call, and an independent decoder
+    holding the same table (what a peer that decoded everything so far holds)"""
+    import collections
+    import hpack
+    enc = ctx.me.encoder
+    if getattr(enc, 'header_table', None) is None:
+        return None
+    dec = hpack.Decoder()
+    dec.max_allowed_table_size = 2 ** 32
+    dec.max_header_list_size = 2 ** 32
+    dec.header_table.dynamic_entries = collections.deque(enc.header_table.dynamic_entries)
+    dec.header_table._maxsize = enc.header_table._maxsize
+    dec.header_table._current_size = enc.header_table._current_size
+    return {'table': _table(enc), 'dec': dec}
+
+
+def judge_block(op, fr, ctx):
+    """the header block of a successful call decodes, with an independent decoder in sync
+    with everything emitted before, to exactly the header list of the call; afterwards
+    encoder and decoder still agree"""
+    info = getattr(ctx, 'pre_info', None)
+    if not info or not fr or not isinstance(fr[0].data, bytes):
+        return
+    want = [tuple(x) for x in (h2h.REQ if op[0] == 'push' else ops.KIND_HEADERS[op[2]])]
+    with h2h.native():
+        try:
+            got = [tuple(x) for x in info['dec'].decode(b''.join(f.data for f in fr), raw=True)]
+        except Exception as e:      # noqa
+            got = 'undecodable: %r' % (e,)
+        after = _table(info['dec'])[0] == _table(ctx.me.encoder)[0]
+    check(got == want, 'header-block-does-not-decode-to-the-call:' + op[0], (got, want))
+    check(after, 'compression-context-desync-after:' + op[0], None)
+
+
 def judge(pre, op, out, ctx):
     """each successful call appends exactly the frames it specifies"""
     if op[0].isupper():
@@ -148,6 +190,12 @@ def judge(pre, op, out, ctx):
     note(out.cls[0])
     if out.cls[0] != 'ok':
         check(len(out.frames) == 0, 'refused-call-emits:' + op[0], F.op_label(op))
+        info = getattr(ctx, 'pre_info', None)
+        if info:
+            with h2h.native():
+                same = _table(ctx.me.encoder) == info['table']
+            # a later header block would reference entries the peer never saw
+            check(same, 'refused-call-changes-compression-context:' + op[0], F.op_label(op))
         return
     fr = out.frames
     sig = [h2h.frame_sig(f) for f in fr]
@@ -163,6 +211,7 @@ def judge(pre, op, out, ctx):
             check(('END_STREAM' in fr[0].flags) == bool(end) and 'END_HEADERS' in fr[0].flags and
                   'PADDED' not in fr[0].flags and 'PRIORITY' not in fr[0].flags,
                   'headers-flags', sig)
+            judge_block(op, fr, ctx)
     elif t == 'send_data':
         _t, sid, end = op
         if one(hf.DataFrame, sid):
@@ -181,6 +230,7 @@ def judge(pre, op, out, ctx):
         if one(hf.PushPromiseFrame, op[1]):
             check(fr[0].promised_stream_id == op[2] and 'END_HEADERS' in fr[0].flags,
                   'push-frame', sig)
+            judge_block(op, fr, ctx)
     elif t == 'wu':
         if one(hf.WindowUpdateFrame, op[1]):
             check(fr[0].window_increment == _reg('inc'),
@@ -280,7 +330,8 @@ def h_frame_size_after_settings(client, other):
 
 
 def shards(tier, seed):
-    out = F.standard_shards(tier, seed, judge, alpha_filter=lambda o: not o[0].isupper())
+    out = F.standard_shards(tier, seed, judge, alpha_filter=lambda o: not o[0].isupper(),
+                            pre_hook=hpack_pre)
     for kind in ('headers', 'headers+end', 'headers+priority', 'response', 'push'):
         out.append(Shard('fragment/%s' % kind, h_fragment(kind),
                          expect=['frames=1', 'frames=2', 'frames=3']))
